@@ -27,7 +27,8 @@ borderline values (0, 1, numpy.bool_) and the class of the exception it raises."
 import io, time as _time, contextlib, itertools
 import numpy as np
 
-RULE = ("ALL scripts with starting_epoch in {1,3}, epochs 0..3 (quick) / 0..4 (thorough), batches per epoch 1..3 / 1..4 "
+RULE = ("fixed regimes first (N = 0 rows, arguments left at their defaults incl. starting_epoch, 2-3 fit calls on one object with and without a flag reset, the same callback object listed twice), then "
+        "ALL scripts with starting_epoch in {1,3}, epochs 0..3 (quick) / 0..4 (thorough), batches per epoch 0..3 / 0..4 (0 = no rows, positive state) "
         "(N and pos_batch_size chosen to give that count, dividing and non-dividing, neg_batch_size varied), "
         "a stop raised at every callback-event index of the run or never, by callback 0 of 1, or callback 0 / 1 of 2 "
         "(callback 0: full CallbackBase subclass; the others rotate through LambdaCallback with all/some/no hooks, partial "
@@ -47,7 +48,7 @@ TS, ES, BS, BE, EE, TE, OPT, SCHED = range(8)
 NAMES = ["TrainStart", "EpochStart", "BatchStart", "BatchEnd", "EpochEnd", "TrainEnd", "OptStep", "SchedStep"]
 
 # (N, pos_batch_size) pairs for a given number of batches per epoch: dividing and non-dividing
-SHAPES = {1: [(3, 5), (2, 2), (1, 1)], 2: [(3, 2), (4, 2), (2, 1)], 3: [(5, 2), (6, 2), (3, 1)],
+SHAPES = {0: [(0, 1), (0, 3)], 1: [(3, 5), (2, 2), (1, 1), (3, 100)], 2: [(3, 2), (4, 2), (2, 1)], 3: [(5, 2), (6, 2), (3, 1)],
           4: [(7, 2), (4, 1), (10, 3)], 5: [(9, 2), (5, 1)], 6: [(11, 2), (6, 1)], 7: [(13, 2), (7, 1)]}
 
 
@@ -109,8 +110,21 @@ def callback_forms(case):
     return forms
 
 
+def callback_positions(case):
+    """Object index served at each position of the callback list.  dup = 1: [cb0, cb1, .., cb1] (object 1 listed
+    again at the end), dup = 2: [cb0, cb1, cb1, ..] (listed twice in a row).  Callback 0 (the recorder) is unique."""
+    n = len(callback_forms(case))
+    pos = list(range(n))
+    dup = case.get("dup", 0)
+    if n >= 2 and dup == 1:
+        pos = pos + [1]
+    elif n >= 2 and dup == 2:
+        pos = [0, 1, 1] + pos[2:]
+    return pos
+
+
 def make_callbacks(tape, case):
-    """The callbacks of a script in their public forms (see callback_forms)."""
+    """The callbacks of a script in their public forms (see callback_forms), listed as callback_positions says."""
     from qucumber.callbacks import CallbackBase, LambdaCallback
     raise_i = case["raise_at"]
     raiser = case["raiser"] if case["raiser"] < case["ncb"] else -1      # passive extras never raise
@@ -142,7 +156,7 @@ def make_callbacks(tape, case):
             out.append(cls())
         else:
             out.append(LambdaCallback(**{HOOK[c]: hook_fn(j, c, False) for c in hooks}))
-    return out
+    return [out[j] for j in callback_positions(case)]
 
 
 def make_optimizer(tape):
@@ -178,13 +192,17 @@ def build_state(kind, dseed):
     return DensityMatrix(2, 2, 2, gpu=False)
 
 
-def build_data(kind, N, dseed):
+def build_data(kind, N, dseed, form="numpy"):
     rng = np.random.default_rng(dseed)
     data = rng.integers(0, 2, size=(N, 2)).astype(float)
+    if form == "tensor":
+        import torch
+        data = torch.tensor(data, dtype=torch.double)
     if kind == "positive":
         return data, None
-    bases = np.array([list(b) for b in rng.choice(["ZZ", "XZ", "ZY", "XX", "ZZ"], size=N)])
-    bases[0] = ["Z", "Z"]          # the negative phase needs at least one reference-basis sample
+    bases = np.array([list(b) for b in rng.choice(["ZZ", "XZ", "ZY", "XX", "ZZ"], size=N)]).reshape(N, 2)
+    if N:
+        bases[0] = ["Z", "Z"]      # the negative phase needs at least one reference-basis sample
     return data, bases
 
 
@@ -213,7 +231,7 @@ def drive(case, state=None):
     import torch
     kind = case["state"]
     s = state if state is not None else build_state(kind, case["dseed"])
-    data, bases = build_data(kind, case["N"], case["dseed"])
+    data, bases = build_data(kind, case["N"], case["dseed"], case.get("data_form", "numpy"))
     tape = Tape(s)
     m = case["ncb"]
     cbs = make_callbacks(tape, case)
@@ -228,18 +246,31 @@ def drive(case, state=None):
     before = tape.snap()
     flag_before = s.stop_training
     kw = dict(epochs=case["epochs"], pos_batch_size=case["bs"], neg_batch_size=case["neg_bs"], k=1, lr=0.1,
-              starting_epoch=case["start"], time=case["time"], callbacks=(cbs if m else None),
+              starting_epoch=case["start"], time=case["time"], callbacks=(cbs if m else ([] if fv % 2 else None)),
               optimizer=make_optimizer(tape), optimizer_args={"weight_decay": 0.05})
+    if case.get("defaults"):
+        # every argument that has its documented default value is left out (starting_epoch=1, time=False,
+        # neg_batch_size=None, k=1, callbacks=None, epochs=100, pos_batch_size=100; lr takes its default too)
+        DEF = {"epochs": 100, "pos_batch_size": 100, "neg_batch_size": None, "k": 1, "starting_epoch": 1, "time": False}
+        for name, dv in DEF.items():
+            if kw[name] is dv or (dv is not None and not isinstance(dv, bool) and kw[name] == dv):
+                del kw[name]
+        del kw["lr"]
+        if not m:
+            del kw["callbacks"]
     if case["sched"]:
         kw["scheduler"] = make_scheduler(tape)
     if bases is not None:
         kw["input_bases"] = bases
     if fv % 16 == 5:
         kw["progbar"] = True
+    args = [data]
+    if case.get("positional") and "epochs" in kw and "pos_batch_size" in kw:
+        args += [kw.pop("epochs"), kw.pop("pos_batch_size")]      # fit(data, epochs, pos_batch_size, ...)
     buf = io.StringIO()
     torch.manual_seed(case["dseed"] + 1)
     with contextlib.redirect_stdout(buf), contextlib.redirect_stderr(io.StringIO()):
-        ret = s.fit(data, **kw)
+        ret = s.fit(*args, **kw)
     after = tape.snap()
     # versions: number of parameter changes seen so far
     log, v, prev = [], 0, before
@@ -401,9 +432,10 @@ def oracle(ctx, case, obs):
 
     # ---- dispatch order
     forms = callback_forms(case)
-    want = [[j, c, e, b] for (c, e, b) in vis for j, (_, hooks) in enumerate(forms) if c in hooks]
+    positions = callback_positions(case)
+    want = [[j, c, e, b] for (c, e, b) in vis for j in positions if c in forms[j][1]]
     R("every event reaches the callbacks (every hook that exists) in list order", obs["deliveries"] == want,
-      {"got": obs["deliveries"][:12], "want": want[:12], "forms": forms})
+      {"got": obs["deliveries"][:12], "want": want[:12], "forms": forms, "list positions -> callback object": positions})
 
     # ---- what is printed is not part of the property: informational
     if not case["time"]:
@@ -417,7 +449,7 @@ def model_run(ctx, case):
     raiser = case["raiser"]
     r = case["raise_at"] if (case["raise_at"] >= 0 and raiser < case["ncb"]) else -1
     pre = 1 if case["prestopped"] else 0
-    total = len(callback_forms(case))          # user callbacks + passive extras
+    total = len(callback_positions(case))      # list positions: user callbacks + passive extras (+ a repeated object)
     out = m.call("c12_fit", case["start"], case["epochs"], nb, pre, 1 if case["sched"] else 0, r,
                  total, raiser if raiser < case["ncb"] else total, 1 if case["time"] else 0, 0)
     log, stop, ver, dl, tm, rec = out
@@ -428,7 +460,9 @@ def model_run(ctx, case):
 def run_case(ctx, case, state=None):
     nb_py = -(-case["N"] // case["bs"])
     n_ep = max(0, case["epochs"] + 1 - case["start"])
-    desc = {k: case.get(k, 0) for k in ("state", "start", "epochs", "N", "bs", "neg_bs", "raise_at", "ncb", "raiser", "time", "sched", "prestopped", "fv")}
+    desc = {k: case.get(k, 0) for k in ("state", "start", "epochs", "N", "bs", "neg_bs", "raise_at", "ncb", "raiser", "time", "sched", "prestopped", "fv",
+                                           "defaults", "positional", "data_form", "dup")}
+    desc["history"] = len(case.get("hist", []))
     ctx.case(desc, nontrivial=(n_ep >= 1 and not case["prestopped"]))
     ctx.count("state:" + case["state"]); ctx.count("nb:%d" % nb_py); ctx.count("epochs_run:%d" % n_ep)
     ctx.count("ncb:%d" % case["ncb"]); ctx.count("time:%s" % case["time"]); ctx.count("sched:%s" % case["sched"])
@@ -439,6 +473,11 @@ def run_case(ctx, case, state=None):
     if case["ncb"]:
         ctx.count("callbacks passed as:" + ("list", "tuple", "CallbackList")[case.get("fv", 0) % 3])
         ctx.count("progbar:%s" % (case.get("fv", 0) % 16 == 5))
+        ctx.count("same callback object listed twice:%s" % (len(callback_positions(case)) > len(forms)))
+    ctx.count("arguments at their default are omitted:%s" % bool(case.get("defaults")))
+    ctx.count("starting_epoch omitted (default):%s" % bool(case.get("defaults") and case["start"] == 1))
+    ctx.count("data as:%s%s" % (case.get("data_form", "numpy"), ", epochs/pos_batch_size positional" if case.get("positional") else ""))
+    ctx.count("earlier fit calls on the same object:%d" % len(case.get("hist", [])))
     ok, obs = ctx.call("fit", case, drive, case, state)
     if not ok:
         return None
@@ -449,8 +488,10 @@ def run_case(ctx, case, state=None):
     ctx.agree_exact("batches per epoch (ceil(N/pos_batch_size))", nb_py, mod["nb"], case)
     if m > 0 or case["prestopped"]:
         ctx.agree_exact("timeline (callback events, optimizer/scheduler steps, parameter versions)", obs["log"], mod["log"], case)
+        positions = callback_positions(case)
         ctx.agree_exact("deliveries (callback index, event) to the hooks that exist", obs["deliveries"],
-                        [d for d in mod["deliveries"] if d[0] < len(forms) and d[1] in forms[d[0]][1]], case)
+                        [[positions[d[0]]] + d[1:] for d in mod["deliveries"]
+                         if d[0] < len(positions) and d[1] in forms[positions[d[0]]][1]], case)
         if case["time"]:           # informational: the property does not say what the timing callback prints
             same = (obs["timer"] == ([] if case["prestopped"] else mod["timer"])) and not obs["other_output"]
             ctx.count("info:Timer output %s" % ("as modelled" if same else "differs from the model"))
@@ -468,8 +509,14 @@ def run_case(ctx, case, state=None):
     return obs
 
 
-def mk(kind, start, epochs, N, bs, raise_at=-1, ncb=1, raiser=0, time=False, sched=False, prestopped="", neg_bs=None, dseed=11, fv=0):
-    return {"fv": int(fv), "state": kind, "start": int(start), "epochs": int(epochs), "N": int(N), "bs": int(bs), "neg_bs": neg_bs,
+def mk(kind, start, epochs, N, bs, raise_at=-1, ncb=1, raiser=0, time=False, sched=False, prestopped="", neg_bs=None, dseed=11, fv=0,
+       defaults=None, positional=None, data_form=None, dup=None):
+    fv = int(fv)
+    return {"defaults": bool(fv % 2 == 1 if defaults is None else defaults),
+            "positional": bool(fv % 5 == 2 if positional is None else positional),
+            "data_form": (("tensor" if fv % 4 == 2 else "numpy") if data_form is None else data_form),
+            "dup": int((1 if fv % 7 == 3 else 2 if fv % 7 == 5 else 0) if dup is None else dup),
+            "fv": fv, "state": kind, "start": int(start), "epochs": int(epochs), "N": int(N), "bs": int(bs), "neg_bs": neg_bs,
             "raise_at": int(raise_at), "ncb": int(ncb), "raiser": int(raiser), "time": bool(time), "sched": bool(sched),
             "prestopped": prestopped, "dseed": int(dseed)}
 
@@ -480,7 +527,7 @@ CONFIGS = [(ncb, raiser, time, sched) for (ncb, raiser) in ((1, 0), (2, 0), (2, 
 def scripts(max_epochs, max_nb):
     for start in (1, 3):
         for epochs in range(0, max_epochs + 1):
-            for nb in range(1, max_nb + 1):
+            for nb in range(0, max_nb + 1):
                 n_events = len(full_run(start, epochs, nb))
                 for r in [-1] + list(range(n_events)):
                     yield start, epochs, nb, r
@@ -490,6 +537,8 @@ def enumerate_cases(ctx, max_epochs, max_nb, full_product):
     k = 0
     for si, (start, epochs, nb, r) in enumerate(scripts(max_epochs, max_nb)):
         for ki, kind in enumerate(("positive", "complex", "mixed")):
+            if nb == 0 and kind != "positive":
+                continue              # no reference-basis row to sample negatives from: outside fit's working domain
             if full_product:
                 cfgs = CONFIGS
             elif kind == "positive":
@@ -498,7 +547,7 @@ def enumerate_cases(ctx, max_epochs, max_nb, full_product):
                 cfgs = [CONFIGS[(2 * si + ki + i * 5) % len(CONFIGS)] for i in range(2)]
             for (ncb, raiser, time, sched) in cfgs:
                 N, bs = SHAPES[nb][k % len(SHAPES[nb])]
-                neg = [None, bs + 1, 1][k % 3] if k % 4 == 0 else None
+                neg = [None, bs + 1, 1][k % 3] if (k % 4 == 0 and N > 0) else None
                 k += 1
                 yield mk(kind, start, epochs, N, bs, r, ncb, raiser, time, sched, neg_bs=neg, dseed=int(ctx.rng.integers(1, 10 ** 6)), fv=k)
 
@@ -522,19 +571,35 @@ def extras(ctx):
             yield ("single", mk(kind, start, epochs, N, bs, 1, 1, 1, False, True, fv=fv))
 
 
-def random_cases(ctx, n):
+def random_case(ctx, kind=None):
     rng = ctx.rng
-    for _ in range(n):
-        kind = ["positive", "complex", "mixed"][int(rng.integers(0, 3))]
-        start = int(rng.integers(-2, 7))
-        epochs = start + int(rng.integers(-2, 6))
-        nb = int(rng.integers(1, 8))
-        N, bs = SHAPES[nb][int(rng.integers(0, len(SHAPES[nb])))]
-        n_events = len(full_run(start, epochs, nb))
-        r = int(rng.integers(-1, n_events))
-        ncb = int(rng.integers(1, 4))
-        yield mk(kind, start, epochs, N, bs, r, ncb, int(rng.integers(0, ncb)), bool(rng.integers(0, 2)), bool(rng.integers(0, 2)),
-                 neg_bs=[None, 1, bs + 2][int(rng.integers(0, 3))], dseed=int(rng.integers(1, 10 ** 6)), fv=int(rng.integers(0, 48)))
+    kind = kind or ["positive", "complex", "mixed"][int(rng.integers(0, 3))]
+    start = int(rng.integers(-2, 7)) if rng.integers(0, 3) else 1
+    epochs = start + int(rng.integers(-2, 6))
+    nb = int(rng.integers(0 if kind == "positive" else 1, 8))
+    N, bs = SHAPES[nb][int(rng.integers(0, len(SHAPES[nb])))]
+    n_events = len(full_run(start, epochs, nb))
+    r = int(rng.integers(-1, n_events))
+    ncb = int(rng.integers(1, 4))
+    return mk(kind, start, epochs, N, bs, r, ncb, int(rng.integers(0, ncb)), bool(rng.integers(0, 2)), bool(rng.integers(0, 2)),
+              neg_bs=([None, 1, bs + 2][int(rng.integers(0, 3))] if N else None), dseed=int(rng.integers(1, 10 ** 6)),
+              fv=int(rng.integers(0, 420)))
+
+
+def random_cases(ctx, n):
+    """random larger scripts; about a third of them are histories of 2-3 fit calls on the same object."""
+    i = 0
+    while i < n:
+        first = random_case(ctx)
+        if ctx.rng.integers(0, 3) == 0:
+            steps = [(first, None)]
+            for _ in range(int(ctx.rng.integers(1, 3))):
+                steps.append((random_case(ctx, first["state"]), [None, "reset"][int(ctx.rng.integers(0, 2))]))
+            yield ("history", steps)
+            i += len(steps)
+        else:
+            yield ("single", first)
+            i += 1
 
 
 def setter_stream(ctx):
@@ -598,17 +663,114 @@ def recogniser_cross_check(ctx, n):
         ctx.agree_exact("Python recogniser vs Coq recogniser", py, coq, case)
 
 
-def run_one(ctx, tag, case):
-    if tag == "persist":
-        obs = run_case(ctx, case)
-        if obs is not None and obs["flag"] is True:
-            second = dict(case, raise_at=-1, prestopped="persisted")
-            run_case(ctx, second, state=obs["state_obj"])
+def compact(case):
+    return {k: v for k, v in case.items() if k != "hist"}
+
+
+def prepare_state(case):
+    """Re-create the object a case with a history starts from: the earlier fit calls (and flag resets) are re-run."""
+    s = None
+    for prior, action in case.get("hist", []):
+        if action == "reset" and s is not None:
+            s.stop_training = False
+        s = drive(prior, s)["state_obj"]
+    if s is not None and case.get("reset_before"):
+        s.stop_training = False
+    return s
+
+
+def run_history(ctx, steps):
+    """Several fit calls on the SAME object.  steps: [(case, action)], action None | "reset" (stop_training = False
+    before the call).  Every call must follow the protocol on its own: a finished run leaves nothing behind except
+    the flag, and a flag left up (no reset) makes the next call a pre-stopped one."""
+    state, hist = None, []
+    for case, action in steps:
+        case = dict(case, hist=list(hist), reset_before=(action == "reset"))
+        if state is not None and action == "reset":
+            state.stop_training = False
+        if state is not None and state.stop_training:
+            case["prestopped"] = "persisted"
+        obs = run_case(ctx, case, state=state)
+        if obs is None:
+            return
+        state = obs["state_obj"]
+        hist.append([compact(dict(case, reset_before=False)), action])
+
+
+def run_one(ctx, tag, item):
+    if tag == "history":
+        run_history(ctx, item)
+    elif tag == "persist":
+        run_history(ctx, [(item, None), (dict(item, raise_at=-1), None)])
     else:
-        run_case(ctx, case)
+        run_case(ctx, item)
+
+
+def n0_other_regimes(ctx):
+    """N = 0 rows where the negative phase has to SAMPLE from an empty pool (complex / mixed: no reference-basis row;
+    positive with neg_batch_size != pos_batch_size).  On the present code torch.randint(0, ...) raises after
+    on_train_start.  Reported as information unless the integrator lists it as an open known finding with
+    match {"regime": "N=0, negatives sampled from an empty pool"} (then it is a `require`)."""
+    listed = any(k.get("status") == "open" and k.get("match", {}).get("regime") == "N=0, negatives sampled from an empty pool"
+                 for k in ctx.known)
+    for kind, neg in (("positive", 2), ("complex", None), ("mixed", None)):
+        case = mk(kind, 1, 2, 0, 3, -1, 1, 0, False, False, neg_bs=neg, fv=0)
+        case["regime"] = "N=0, negatives sampled from an empty pool"
+        ctx.case({k: case[k] for k in ("state", "N", "bs", "neg_bs", "regime")}, nontrivial=False)
+        try:
+            obs = drive(case)
+            vis = [(c, int(e), int(b)) for c, e, b, _ in obs["timeline"] if c <= TE]
+            ok, detail = (vis == full_run(1, 2, 0)), "trace %r" % (vis,)
+        except Exception as ex:
+            ok, detail = False, "fit raised %s: %s" % (type(ex).__name__, str(ex)[:120])
+        ctx.count("info:%s: %s" % (case["regime"], "protocol intact" if ok else "fit raised / protocol broken"))
+        if listed:
+            ctx.require("N = 0 rows with sampled negatives: the run follows the protocol", ok, case, detail)
+
+
+def fixed_first(ctx):
+    """Regimes that always run first: zero rows, arguments left at their defaults, several fit calls on one object,
+    the same callback object listed twice."""
+    fv = 0
+    # ---- N = 0 rows (zero batches per epoch): TrainStart (EpochStart e EpochEnd e)* TrainEnd
+    for (start, epochs) in ((1, 2), (3, 4), (1, 0)):
+        for bs in (1, 3):
+            for form in ("numpy", "tensor"):
+                n_ev = len(full_run(start, epochs, 0))
+                for r in (-1, 0, 1, 2, n_ev - 1):
+                    if r >= n_ev:
+                        continue
+                    fv += 1
+                    yield ("single", mk("positive", start, epochs, 0, bs, r, 2, fv % 2, bool(fv % 3 == 0), bool(fv % 2), fv=fv,
+                                        data_form=form, defaults=bool(fv % 2), dup=0))
+    for kind in ("positive", "complex", "mixed"):
+        # ---- every argument with a documented default left out (starting_epoch = 1, time = False, k, lr, neg_batch_size ...)
+        for (epochs, N, bs, r) in ((2, 3, 2, -1), (2, 3, 2, 4), (3, 2, 100, -1), (100, 3, 100, 7), (0, 3, 2, -1)):
+            for ncb in (1, 2):
+                fv += 1
+                yield ("single", mk(kind, 1, epochs, N, bs, r, ncb, 0, False, bool(fv % 2), fv=fv, defaults=True, positional=bool(fv % 2), dup=0))
+        yield ("single", mk(kind, 1, 2, 3, 2, -1, 0, 0, False, True, fv=1, defaults=True))
+        # ---- histories on one object
+        a = lambda **kw: mk(kind, 1, 2, 3, 2, kw.pop("r", -1), 2, kw.pop("raiser", 0), kw.pop("time", False), kw.pop("sched", True),
+                            defaults=kw.pop("defaults", True), dup=0, **kw)
+        yield ("history", [(a(fv=2), None), (a(fv=4), None)])                                   # unstopped, then again (defaults)
+        yield ("history", [(a(fv=6, defaults=False), None), (a(fv=3), None), (a(fv=9, time=True), None)])
+        yield ("history", [(a(fv=8, r=3), None), (a(fv=10), "reset")])                           # stopped, flag reset, full run
+        yield ("history", [(a(fv=12, r=6, raiser=1, time=True), None), (a(fv=14, r=1), "reset"), (a(fv=16), "reset")])
+        yield ("history", [(a(fv=18, r=2), None), (a(fv=20), None), (a(fv=22), "reset")])        # stopped, pre-stopped, reset, full
+        yield ("history", [(mk(kind, 3, 4, 3, 2, -1, 1, 0, False, False, fv=24), None), (a(fv=26), None)])   # explicit start 3, then default
+        # ---- the same callback object listed twice
+        for dup in (1, 2):
+            for (r, raiser) in ((-1, 0), (3, 1), (4, 0), (0, 1)):
+                fv += 1
+                yield ("single", mk(kind, 1, 2, 3, 2, r, 2, raiser, bool(fv % 2), bool(fv % 3 == 0), fv=6 * fv, dup=dup))
+                yield ("single", mk(kind, 3, 3, 2, 2, r, 1, 0, False, True, fv=6 * fv + 5, dup=dup))
 
 
 def run(ctx):
+    for tag, item in fixed_first(ctx):
+        run_one(ctx, tag, item)
+    n0_other_regimes(ctx)
     if ctx.thorough:
         gen = enumerate_cases(ctx, 4, 4, True)
     else:
@@ -617,24 +779,41 @@ def run(ctx):
         run_case(ctx, case)
     for tag, case in extras(ctx):
         run_one(ctx, tag, case)
-    for case in random_cases(ctx, 300 if ctx.thorough else 40):
-        run_case(ctx, case)
+    for tag, item in random_cases(ctx, 300 if ctx.thorough else 45):
+        run_one(ctx, tag, item)
     setter_stream(ctx)
     recogniser_cross_check(ctx, 400 if ctx.thorough else 100)
-    ctx.extra["exhaustive_within"] = ("starting_epoch in {1,3}, epochs 0..%d, batches/epoch 1..%d, stop at every event index or never"
-                                      % ((4, 4) if ctx.thorough else (3, 3)))
+    ctx.extra["exhaustive_within"] = ("starting_epoch in {1,3}, epochs 0..%d, batches/epoch 0..%d (0: positive state only), stop at every "
+                                      "event index or never" % ((4, 4) if ctx.thorough else (3, 3)))
 
 
 def search(ctx, broken, budget):
-    """Wider oracle sweep when proof or correspondence broke: the thorough enumeration until the first failing input."""
+    """Wider oracle sweep when proof or correspondence broke: the fixed regimes, then the thorough enumeration and
+    random scripts / histories, until the first failing input."""
     t0 = _time.time()
     n0 = len(ctx.failures)
-    for case in itertools.chain(enumerate_cases(ctx, 4, 4, True), random_cases(ctx, 500)):
-        try:
-            obs = drive(case)
-            oracle(ctx, case, obs)
-        except Exception as ex:
-            ctx.require("fit raised " + type(ex).__name__, False, case, repr(ex)[:300])
+
+    def sweep():
+        for tag, item in fixed_first(ctx):
+            yield tag, item
+        for case in enumerate_cases(ctx, 4, 4, True):
+            yield "single", case
+        for tag, item in random_cases(ctx, 500):
+            yield tag, item
+
+    for tag, item in sweep():
+        steps = item if tag == "history" else [(item, None), (dict(item, raise_at=-1), None)] if tag == "persist" else [(item, None)]
+        state = None
+        for case, action in steps:
+            try:
+                if state is not None and action == "reset":
+                    state.stop_training = False
+                obs = drive(case, state)
+                oracle(ctx, case, obs)
+                state = obs["state_obj"]
+            except Exception as ex:
+                ctx.require("fit raised " + type(ex).__name__, False, case, repr(ex)[:300])
+                break
         if len(ctx.failures) > n0:
             return ctx.failures[n0]
         if _time.time() - t0 > budget:
@@ -644,12 +823,15 @@ def search(ctx, broken, budget):
 
 def replay(ctx, rec):
     case = rec.get("failing", {}).get("case", {})
-    print("replay of", {k: v for k, v in case.items() if k != "dseed"})
+    print("replay of", {k: v for k, v in case.items() if k not in ("dseed", "hist")}, "after %d earlier fit calls" % len(case.get("hist", [])))
     if case.get("call"):
         setter_stream(ctx)
         return
-    if case.get("prestopped") == "persisted":
-        first = dict(case, raise_at=2, prestopped="")
-        run_one(ctx, "persist", first)
-    else:
-        run_case(ctx, case)
+    if case.get("regime"):
+        n0_other_regimes(ctx)
+        return
+    if case.get("prestopped") == "persisted" and not case.get("hist"):      # replay files written before histories existed
+        run_history(ctx, [(dict(case, raise_at=2, prestopped=""), None), (dict(case, prestopped=""), None)])
+        return
+    state = prepare_state(case)
+    run_case(ctx, case, state=state)
